@@ -182,5 +182,74 @@ def run(case, ctx):
     ctx.nontrivial(interesting)
 
 
+# ------------------------------------------------------------------------------------------------ --path option
+
+@st.composite
+def cli_path_case(draw):
+    """the --path option of gnpy-transmission-example: names of ROADMs to cross, in the order given by the user"""
+    eq = draw(netgen.equipment(span=draw(netgen.span_entry(max_length=200, padding=10, eol=0))))
+    chain_kw = {'spans': (1, 1), 'fiber_kw': {'lumped': False, 'per_freq_loss': False}, 'fused': False, 'user_amps': False}
+    topo, truth = draw(netgen.topology(eq, n=(3, 6), extra_max=3, chain_kw=chain_kw, per_degree=False, own_policy=False))
+    # a generated simple walk over the links (>= 2 sites)
+    site = draw(st.integers(0, truth['n'] - 1))
+    walk, seen = [site], {site}
+    for _ in range(truth['n']):
+        nxt = sorted({b if a == site else a for a, b in truth['links'] if site in (a, b)} - seen)
+        if not nxt or (len(walk) >= 2 and draw(st.integers(0, 2)) == 0):
+            break
+        site = draw(st.sampled_from(nxt))
+        walk.append(site)
+        seen.add(site)
+    style = draw(st.sampled_from(['uid', 'uid-upper', 'short']))
+    return {'eq': eq, 'topo': topo, 'truth': truth, 'walk': walk, 'style': style,
+            'give_ends': draw(st.booleans())}
+
+
+def run_cli_path(case, ctx):
+    from gnpy.tools import cli_examples
+    from gnpy.tools.worker_utils import designed_network
+    from gnpy.topology.request import compute_constrained_path
+    walk = case['walk']
+    if len(walk) < 2:
+        ctx.label('skipped:single-site')
+        return
+    netgen.reset_sim_params()
+    try:
+        equipment, network = netgen.build_network(case['eq'], case['topo'])
+        network, req, _ = designed_network(equipment, network, source=f'trx R{walk[0]}', destination=f'trx R{walk[-1]}')
+    except Exception as e:  # noqa C08
+        ctx.label('skipped:design-failed:' + type(e).__name__)
+        return
+    names = [{'uid': f'roadm R{i}', 'uid-upper': f'ROADM R{i}', 'short': f'm R{i}'}[case['style']] for i in walk]
+    nodes = {n.uid: n for n in network.nodes()}
+    src, dst = nodes[f'trx R{walk[0]}'], nodes[f'trx R{walk[-1]}']
+    if case['give_ends']:
+        got = cli_examples._get_params_from_path(names, network, src, dst, src.uid, dst.uid)
+    else:
+        got = cli_examples._get_params_from_path(names, network, None, None, None, None)
+    source, destination, nodes_list, loose_list = got
+    want = [f'roadm R{i}' for i in walk] + [f'trx R{walk[-1]}']
+    ctx.label('ends:' + ('given' if case['give_ends'] else 'inferred'), f'sites:{min(len(walk), 4)}')
+    if (source.uid, destination.uid) != (f'trx R{walk[0]}', f'trx R{walk[-1]}'):
+        ctx.violation('end-points', f'--path {names}: source {source.uid}, destination {destination.uid}')
+        return
+    if list(nodes_list) != want:
+        ctx.violation('include-list-not-in-the-requested-order', f'--path {names}: nodes_list {nodes_list}')
+        return
+    req.source, req.destination, req.nodes_list, req.loose_list = source.uid, destination.uid, nodes_list, loose_list
+    path = compute_constrained_path(network, req)
+    sites = [e.uid for e in path if e.uid.startswith('roadm ')]
+    if sites != want[:-1]:
+        # the walk is a simple route over existing links: it is the only route crossing exactly these ROADMs in this order
+        # unless a shorter parallel... the ROADM sequence must at least contain the requested ones in order
+        it = iter(sites)
+        if not all(any(x == w for x in it) for w in want[:-1]):
+            ctx.violation('route-does-not-cross-the-named-roadms-in-order', f'--path {names}: route {sites}')
+            return
+    ctx.nontrivial(len(walk) >= 3 and sorted(walk) != walk)
+
+
 CHECKS = [Check('routing', routing_case(), run, quick=1500, thorough=50000,
-                doc='validity + optimality of compute_path_dsjctn routes vs brute force')]
+                doc='validity + optimality of compute_path_dsjctn routes vs brute force'),
+          Check('cli-path', cli_path_case(), run_cli_path, quick=150, thorough=4000,
+                doc='the --path option of gnpy-transmission-example resolves ROADM names in the order given')]
